@@ -6,6 +6,9 @@
 #define LIM 2
 #endif
 #define K 3
+#ifndef BIG
+#define BIG 70000
+#endif
 #include "verif.h"
 typedef struct { int r; u64 pos; int id; u64 at; } out_t;
 static u64 n_, start_;
@@ -106,7 +109,26 @@ static void check_out(u64 *o, out_t e, int required) {
 static void harness(void) {
   setup();
   u64 o[8];
-#ifdef DEPTH
+#ifdef STEP
+  /* one guarded step from an arbitrary pre-state: d0 levels already entered (any 64-bit count), limit BIG */
+  u64 d0 = IN(0, 0xfffffffffffffffeULL);
+  lg_n = 0; w_depth_step(buf_, n_, start_, d0, o);
+  CHECK(o[5] == d0, "the depth counter holds any number of entered levels (no narrowing)");
+  if (d0 + 1 > BIG) {
+    CHECK(o[0] == 2 && o[2] == 702 && o[3] == start_, "one level beyond the limit: error raised where the attempt starts");
+    CHECK(lg_n == 0, "the guarded rule is not attempted beyond the limit");
+  } else {
+    CHECK(lg_n == 1 && lg_k[0] == 1 && lg_pos[0] == start_ && lg_end[0] == n_, "within the limit the guarded rule is attempted once, where it starts");
+    CHECK(lg_depth[0] == d0 + 1, "the guarded rule runs at depth d0 + 1");
+    u8 r = T_res[1][start_][n_];
+    CHECK(o[0] == r, "result of the guarded rule handed on");
+    if (r == 1) CHECK(o[1] == T_np[1][start_][n_], "consumption of the guarded rule handed on");
+    if (r == 2) CHECK(o[2] == 1001, "error of the guarded rule handed on");
+  }
+  CHECK(o[4] == d0, "depth counter back to its previous value afterwards (success, failure or exception)");
+  REACH(d0 + 1 > BIG, "limit exceeded"); REACH(d0 == BIG - 1 && o[0] == 1, "deepest permitted level succeeds");
+  REACH(d0 > 0xffffffffULL, "more than 2^32 levels entered"); REACH(o[0] == 3, "foreign exception");
+#elif defined(DEPTH)
   /* progress: the recursive alternative must consume, otherwise recursion is unbounded without the guard */
   for (u64 p = 0; p <= SP_N; ++p) for (u64 e = 0; e <= SP_N; ++e) ASSUME(T_res[0][p][e] != 1 || T_np[0][p][e] > p);
   out_t e = specR(start_, 0);
